@@ -49,6 +49,28 @@ SOLVER_NOTE = TB + ('the objective is an oracle (arbitrary stream of finite valu
                     '(reals, non-NaN binary64); depq.DEPQ modelled as a stable descending list; pow() results taken from the implementation\'s own calls; '
                     'the evolvent, scipy and listeners are outside this model.')
 CHECKS.update({
+    'C05': dict(
+        text='Theorems: every evolvent image lies strictly inside any box lower<upper for N in 2..5 and every density (N=1 affine); for ANY local optimiser that respects the bounds it is given, '
+             'the refinement step evaluates only inside the box, returns a point inside it, reports the objective value at the returned point and never a worse value than the start. '
+             'Source facts (reflexivity): DoLocalRefinement passes Bounds(problem.lower, problem.upper) to scipy.optimize.minimize, evaluates the objective at the returned point, accepts only <=, '
+             'stores a new Trial. Oracle: solver runs on objectives whose unconstrained minimum is outside / on the boundary, dims 1..5, refine on/off, repeated explicit refinements.',
+        design='5 C05', note=TB + 'scipy Nelder-Mead is an assumed contract (Section hypothesis), exercised but not modelled; float rounding of the affine map on degenerate boxes not covered.',
+        technique='Rocq proof (evolvent box theorem + refinement step over an abstract bound-respecting optimiser) + source pass-through facts + runs'),
+    'C12': dict(
+        text='Theorems on an explicit cell model of what the code can share: the state of solver i after ANY interleaving of any number of solvers equals its state after its own steps; '
+             'with distinct (fresh) cells the published result is isolated too; with a shared default cell isolation is refuted (witness), i.e. the model can exhibit the defect. '
+             'Source facts (reflexivity): no mutable default argument in iOpt/ is written through, no class-/module-level mutable state, Solver builds its own components. '
+             'Oracle: ALL interleavings of two solvers with up to 4 steps each, random interleavings of three, earlier Solutions and records re-read afterwards.',
+        design='5 C12', note=TB + 'only the enumerated kinds of shareable objects are modelled; the alias analysis is a name-based syntactic over-approximation of writes.',
+        technique='Rocq proof over an explicit shared-cell model + source allocation policy + exhaustive small interleavings'),
+    'C13': dict(
+        text='Theorems over the state machine: every DoGlobalIteration call produces one notification with exactly the new trials of that call in order, their concatenation is the trial sequence, '
+             'BeforeMethodStart is sent when the first iteration starts; listeners are not an input of the state machine. Source facts (reflexivity): call arities accepted by the base class, '
+             'argument shapes, shipped listeners/output code never write through what they receive, recorded skeletons of DoGlobalIteration/Solve. '
+             'Oracle: recording listeners overriding each of the 8 subsets of callbacks x batchings x dimension 1..3; every shipped listener (console 3 modes, static/animated painters under Agg) '
+             'must leave trials and result unchanged; the console final report is parsed against the Solution.',
+        design='5 C13', note=TB + 'string formatting, matplotlib and sklearn are not modelled: that half is differential runs only.',
+        technique='Rocq proof of the notification trace + source arity/write facts + differential runs with shipped listeners'),
     'C19': dict(
         text='Theorems over an executable model of SearchData / SearchDataDualQueue / CharacteristicsQueue (generic key type with a total order): both queues stay sorted '
              'under ANY finite operation sequence (induction over the sequence), a best-interval request returns an entry of maximal queued priority, the dual variant returns a '
